@@ -12,6 +12,7 @@ CONSTANTS
   LogV = {}
   RefV = {}
   SuiV = {}
+  StageFolds = FALSE
   MaxOps = 4
   MaxDepth = 3
   MaxCommits = 1
